@@ -289,11 +289,11 @@ func (o OneOfSchema[KeyType]) validateMap(data map[string]any) (KeyType, Object,
 	cloneData := o.deleteDiscriminator(data)
 	err := selectedSchema.ValidateCompatibility(cloneData)
 	if err != nil {
-		return nilKey, nil, &ConstraintError{
+		return nilKey, nil, constraintErrorKeepPath(&ConstraintError{
 			Message: fmt.Sprintf(
 				"validation failed for OneOfSchema. Failed to validate as selected schema type '%T' from discriminator value '%v' (%s)",
 				selectedSchema, selectedTypeIDAsserted, err),
-		}
+		}, err)
 	}
 	return selectedTypeIDAsserted, selectedSchema, nil
 }
